@@ -565,6 +565,24 @@ pub fn run(args: &Args) -> Report {
         let label = format!("{} | retries={} rngA={:?} rngB={:?} rwnd={:?} requests={}", sc.name, sc.retries, sc.rng[0], sc.rng[1], sc.rwnd, sc.reqs.len());
         cases.push(Case { try_unbounded: false, max_k: u32::MAX, label, exec: Box::new(move |r| exec_two(&sc, r)) });
     }
+    // the same scenarios with accepting applications that wait inside a select-like loop: a fresh accept_stream_channel
+    // future for every poll, dropped when it is not ready (the call is documented as cancel safe; the penguin server
+    // uses it so). Only with ONE accepting task per side: several tasks that each drop and re-create their wait share
+    // the receiver's single waker slot, the registration of the one that polled last wins, and a stream arriving later
+    // wakes nobody else; that is the contract of the underlying channel (tokio's mpsc receiver remembers one waker)
+    // and not something the statement promises (see DESIGN 9.5)
+    for sc in scenarios(thorough).into_iter().filter(|sc| sc.acceptors == 1) {
+        let label = format!("{} | retries={} rngA={:?} rngB={:?} rwnd={:?} requests={} | acceptors re-create their accept future at every poll", sc.name, sc.retries, sc.rng[0], sc.rng[1], sc.rwnd, sc.reqs.len());
+        cases.push(Case {
+            try_unbounded: false,
+            max_k: if thorough { u32::MAX } else { 1 },
+            label,
+            exec: Box::new(move |r| {
+                let _restart = crate::apps::RestartWaits::set(true);
+                exec_two(&sc, r)
+            }),
+        });
+    }
     // every draw script of length L over {0, 1, 2}: side 0 opens two streams at once, side 1 opens one with draws 1, 2
     // (ids collide across the sides, zero draws and draws of the side's own pending/live ids appear in every order)
     let l = if thorough { 5 } else { 4 };
